@@ -1,23 +1,37 @@
 import vf
 FUNCS = ['state_sync_process', 'sync_data_reader', 'sync_parity_writer', 'block_is_enabled', 'failed_compare_by_index', 'block_state_get/set', 'block_has_invalid_parity', 'block_has_file', 'block_has_updated_hash', 'hash_is_unique', 'info_get', 'info_set', 'info_make']
-def sync_jobs(prop, tier, extra_defines=(), tag='', kind='obligation', finding_key=None, confs=None):
-    quick = tier == 'quick'
+KN = {'HOLE': 0, 'EMPTY': 1, 'BLK': 2, 'CHG': 3, 'REP': 4, 'DEL': 5}
+def sync_job(prop, shape, lv, faults=False, wfaults=False, reorder=False, extra_defines=(), tag='', kind='obligation', finding_key=None, timeout=1800):
     U = [vf.Unit('cmdline/sync.c', flags=vf.PATHMAX64)]
-    if confs is None:
-        confs = [(2, 1)] if quick else [(2, 1), (2, 2), (3, 1)]
-    J = []
-    for nd, lv in confs:
-        J.append(vf.Job('%s/sync_step/nd%d-level%d%s' % (prop, nd, lv, tag), ['C06_sync.c', 'stubs/log_stubs.c'], units=U, entry='c06_sync_step', defines=['ND=%d' % nd, 'LEVEL=%d' % lv] + list(extra_defines),
-                        cflags=vf.PATHMAX64, unwind=max(nd, 8) + 9, timeout=1800 if quick else 7200, mem_gb=12, funcs=FUNCS, cost=500, native=False, kind=kind, finding_key=finding_key,
-                        sample={'disks': nd, 'parity levels': lv, 'stripes': 1, 'symbolic': 'block states incl. holes, past-hash kinds, content tokens (recorded / encoded by parity / on disk now), per level old or new parity, open/stat/read faults per disk, parity write faults per level, reader order, stop request'}))
-    return J
+    nd = len(shape)
+    D = ['ND=%d' % nd, 'LEVEL=%d' % lv, 'KINDS=' + ','.join(str(KN[k]) for k in shape)] + (['FAULTS'] if faults else []) + (['WFAULTS'] if wfaults else []) + (['REORDER'] if reorder else []) + list(extra_defines)
+    name = '%s/sync_step/%s/level%d%s%s%s%s' % (prop, '-'.join(shape), lv, '-faults' if faults else '', '-wfaults' if wfaults else '', '-reorder' if reorder else '', tag)
+    return vf.Job(name, ['C06_sync.c', 'stubs/log_stubs.c'], units=U, entry='c06_sync_step', defines=D,
+                  cflags=vf.PATHMAX64, unwind=max(nd, 8) + 9, timeout=timeout, mem_gb=12, funcs=FUNCS, cost=500, native=False, kind=kind, finding_key=finding_key,
+                  sample={'stripe shape (block state per disk)': shape, 'parity levels': lv, 'read faults': 'symbolic open/stat/read faults per disk' if faults else 'none', 'parity write faults': 'symbolic per level' if wfaults else 'none',
+                          'symbolic': 'past-hash kinds, content tokens (recorded / encoded by parity / on disk now), per level old or new parity, info word, stop request'})
+def shapes(tier):
+    if tier == 'quick':
+        return [(['CHG', 'BLK'], 1), (['BLK', 'BLK'], 1), (['REP', 'DEL'], 1), (['CHG', 'EMPTY'], 1)]
+    import itertools
+    S = []
+    ks = ['HOLE', 'EMPTY', 'BLK', 'CHG', 'REP', 'DEL']
+    for a, b in itertools.product(ks, ks):
+        if a in ('HOLE', 'EMPTY') and b in ('HOLE', 'EMPTY'):
+            continue
+        S.append(([a, b], 1))
+    for sh in (['CHG', 'BLK'], ['REP', 'DEL'], ['BLK', 'BLK'], ['CHG', 'CHG']):
+        S.append((sh, 2))
+    for sh in (['CHG', 'BLK', 'DEL'], ['BLK', 'REP', 'HOLE']):
+        S.append((sh, 1))
+    return S
 def build(tier, seed):
     known = set(k['key'] for k in vf.load_known_findings())
     J = []
-    if 'F-C08-c' in known:
-        J += sync_jobs('C06', tier, ['EXCL_C08C'], tag='-exclF-C08-c')
-    else:
-        J += sync_jobs('C06', tier)
+    to = 1800 if tier == 'quick' else 7200
+    for sh, lv in shapes(tier):
+        J.append(sync_job('C06', sh, lv, timeout=to))
+    J.append(sync_job('C06', ['CHG', 'BLK'], 1, reorder=True, timeout=to))
     return dict(jobs=J, bounds={'disks': '2 (3 thorough)', 'levels': '1 (2 thorough)', 'stripes': 1, 'data plane': 'abstract: 8-byte blocks = one token'},
         assumptions=['abstract data plane: memhash = injective uninterpreted function, raid_gen = fresh parity tokens with a ghost record of the encoded vector, raid_rec = contract stub (that the real kernels meet these contracts is C02/C03)',
                      'io_* = contract stubs re-stating the single-thread semantics with an ideal error report (that io.c meets it is C13 and the mono harness of C08)',
